@@ -2,7 +2,7 @@ CONSTANTS MaxOrd = 3
  MaxRep = 4
  Tmpls = {"t0", "t1", "t2"}
  Policies = {"OrderedReady", "Parallel"}
- Strats = {"RollingUpdate", "OnDelete"}
+ Strats = {"RollingUpdate", "OnDelete", "RollingUpdateBare"}
  Edits = 0
  Faults = 0
  Fails = 0
